@@ -609,6 +609,15 @@ package lib
 //@   atcall halfPipe#2 before: snap down := arg0
 //@   atcall WaitGroup).Wait before: assert @C05: defined(up) && defined(down)
 //@   ensures @C05: defined(covert) && dialErr == nil && covert != nil ==> closed(covert)
+// the session gauge is balanced (every counted session is uncounted before Proxy returns) and the group is armed for
+// exactly the two directions before either is started
+//@   atcall addSession before: snap sessionCounted := true
+//@   atcall removeSession before: snap sessionUncounted := true
+//@   atcall WaitGroup).Add before: assert @C05: arg1 == 2 && !defined(up)
+//@   atcall WaitGroup).Add before: snap armed := true
+//@   atcall halfPipe#1 before: assert @C05: defined(armed)
+//@   ensures @C05: defined(sessionCounted) ==> defined(sessionUncounted)
+//@   ensures @C05: defined(up) ==> defined(down) && defined(sessionCounted)
 // ("checks structure": the preconditions of halfPipe at the two spawn sites are not obligations here - they need
 // 'a network error has a non-empty text', which is not provable; the wiring of the relay is)
 //@   checks structure
